@@ -10,6 +10,7 @@ CONSTANTS
   LateRoutes = {"z"}
   Stall = TRUE
   MaxConn = 2
+  MaxCancel = 12
   MaxClock = 100000
   ReplyKinds = {"r200", "r400", "r403", "r503", "nack", "silence", "garbage", "vfail"}
   Allowed = {"UnregAnyData", "RegRaisesNoBody", "RegRaisesGarbage", "V2TwoReads", "V2GuardGivesUp"}
